@@ -1,87 +1,37 @@
 """
-C19 demo: TaggedTestLoader.getTestCaseNames returns [] for a class with no
-tagged tests, and unittest's loadTestsFromTestCase then falls back to the
-class's runTest method.  So an untagged runTest is executed under --tagged
-(even one that is NOT executed in an ordinary run), and the class is named
-by --istagged although it contains no tagged test.
+C19: under --tagged the tests executed are exactly the tagged ones; --istagged names exactly the classes with tagged
+tests.  An old-style single-test class (a runTest method, no test* methods) that carries NO tag was run under --tagged
+and named by --istagged: TaggedTestLoader filters the test* names, and when none are left unittest falls back to
+runTest().
 """
-import os
-import re
-import shutil
-import subprocess
-import sys
-import tempfile
+import os, shutil, subprocess, sys, tempfile
 
-MODULE = '''
+MOD = '''
 from tdda.referencetest import ReferenceTestCase, tag
-
-class TestA(ReferenceTestCase):
+class Old(ReferenceTestCase):
+    def runTest(self): print('RAN Old.runTest')
+class New(ReferenceTestCase):
     @tag
-    def test_a1(self): print('RAN TestA.test_a1')
-    def test_a2(self): print('RAN TestA.test_a2')
-
-class TestSingle(ReferenceTestCase):      # classic single-test TestCase
-    def runTest(self): print('RAN TestSingle.runTest')
-
-class TestBoth(ReferenceTestCase):        # test_* methods plus a runTest
-    def test_x(self): print('RAN TestBoth.test_x')
-    def runTest(self): print('RAN TestBoth.runTest')
-
+    def test_a(self): print('RAN New.test_a')
+    def test_b(self): print('RAN New.test_b')
 if __name__ == '__main__':
     ReferenceTestCase.main()
 '''
-
-
-def run(tmp, args):
-    p = subprocess.run([sys.executable, os.path.join(tmp, 'mytests.py')] + args,
-                       cwd=tmp, stdout=subprocess.PIPE,
-                       stderr=subprocess.STDOUT, text=True)
-    ran = sorted(re.findall(r'RAN (\S+)', p.stdout))
-    listed = sorted(re.findall(r'^__main__\.(\w+)$', p.stdout, re.M))
-    return ran, listed, p.stdout
-
-
-def main():
-    tmp = tempfile.mkdtemp(prefix='c19v3')
-    problems = []
-    try:
-        with open(os.path.join(tmp, 'mytests.py'), 'w') as f:
-            f.write(MODULE)
-        ran_all, _, _ = run(tmp, [])
-        print('no option        executed=%s' % ran_all)
-
-        ran, _, _ = run(tmp, ['--tagged'])
-        expected = ['TestA.test_a1']
-        print('--tagged         executed=%s expected=%s' % (ran, expected))
-        if ran != expected:
-            problems.append('--tagged executed %s, expected exactly %s '
-                            '(not executed without the option: %s)'
-                            % (ran, expected,
-                               [t for t in ran if t not in ran_all]))
-
-        ran, listed, _ = run(tmp, ['--istagged'])
-        expected = ['TestA']
-        print('--istagged       executed=%s listed=%s expected listed=%s'
-              % (ran, listed, expected))
-        if ran or listed != expected:
-            problems.append('--istagged executed %s and named %s, expected '
-                            'none executed and exactly %s named'
-                            % (ran, listed, expected))
-
-        ran, _, _ = run(tmp, ['-1', 'TestSingle'])
-        print('-1 TestSingle    executed=%s expected=[]' % ran)
-        if ran:
-            problems.append('-1 TestSingle executed %s, expected none' % ran)
-    finally:
-        shutil.rmtree(tmp, ignore_errors=True)
-    if problems:
-        print('C19 VIOLATED')
-        for p in problems:
-            print('  ' + p)
+d = tempfile.mkdtemp()
+try:
+    with open(os.path.join(d, 'mod.py'), 'w') as f:
+        f.write(MOD)
+    env = dict(os.environ)
+    bad = []
+    p = subprocess.run([sys.executable, 'mod.py', '--tagged'], cwd=d, env=env, capture_output=True, text=True)
+    if 'RAN Old.runTest' in p.stdout + p.stderr:
+        bad.append('--tagged executed the untagged Old.runTest')
+    p = subprocess.run([sys.executable, 'mod.py', '--istagged'], cwd=d, env=env, capture_output=True, text=True)
+    if '__main__.Old' in p.stdout + p.stderr:
+        bad.append('--istagged names class Old, which has no tagged test')
+    if bad:
+        print('C19 VIOLATED: ' + '; '.join(bad))
         sys.exit(1)
     print('C19 ok')
-    sys.exit(0)
-
-
-if __name__ == '__main__':
-    main()
+finally:
+    shutil.rmtree(d, ignore_errors=True)
